@@ -72,7 +72,7 @@ def _sum_strategy(tier):
                                     fastdiag=True))
         dim = simcfg.sim_dim(cfg["sim"])
         ncomp = {"ns2d": 1, "ns3d": 3, "passive2d": 1, "passive3d_scalar": 1, "passive3d_vector": 3}[cfg["sim"]]
-        fk = ["constant", "poly", "bumps", "spikes", "checker", "noise", "mixed"]
+        fk = ["constant", "poly", "bumps", "spikes", "checker", "noise", "mixed", "boxnoise"]
         return {
             "cfg": cfg,
             "primary": draw(gen.vector_field_spec(ncomp, kinds=fk, max_mag_exp=5)),
